@@ -127,3 +127,10 @@ Proof.
 Qed.
 Eval compute in "PA:C19_specified_spelling_roundtrip"%string.
 Print Assumptions C19_specified_spelling_roundtrip.
+
+(** ... and every event type the specification defines selects a dedicated variant of the generated
+    `*EventType` enumeration of its kind. *)
+Theorem C19_specified_event_types_dedicated : all_event_types_dedicated event_type_enums = true.
+Proof. vm_compute. reflexivity. Qed.
+Eval compute in "PA:C19_specified_event_types_dedicated"%string.
+Print Assumptions C19_specified_event_types_dedicated.
